@@ -349,6 +349,8 @@ def run(facts, rep, tier, ctx):
     rep.floor("walk obligations", n, 7)
     n = memory_listing_rules(facts, rep, ws, D)
     rep.floor("in-memory listing obligations", n, 5)
+    from . import c13 as _c13l
+    _c13l.sites_for(facts, rep, ctx["V"], "R05.4p", lambda r: r.name == "read_dir" and bool(r.impl) and "::memory::" in r.impl["self_ty"])
     c09.listing_rules(facts, rep, ws, "R05.5")
     c09.relative_join_rules(facts, rep, ws, "R05.5j")
     c09.resolver_rules(facts, rep, ws, "R05.5r")
